@@ -287,5 +287,87 @@ fn q_c14_buffered_receive_passthrough() {
     assert!(unsafe { CALLS } == 0);
 }
 
+/// Native replay. Kani's concrete-playback generator produces no unit test for these harnesses
+/// ("did not generate unit tests" - the nondeterministic choices are made inside the trait methods of
+/// the mock), so a counterexample is reproduced by *searching* the schedules natively: every
+/// sequence of up to 7 answers of the inner transport is fed to the harness through Kani's own
+/// playback runtime (`kani::concrete_playback_run`) in an ordinary rustc build against the real
+/// `Buffered`; the test fails iff some schedule violates an assertion of the harness. This is only
+/// the replay step - the verdict that a violation exists is CBMC's.
+#[cfg(verif_replay)]
+mod native_search {
+    use super::*;
+
+    fn reset() {
+        unsafe {
+            STARTED = [0; CAP];
+            N_STARTED = 0;
+            FLUSHED = true;
+            READY_TOKEN = false;
+            CONTRACT_BROKEN = false;
+            CALLS = 0;
+            SCRIPT = [0xff; 8];
+        }
+    }
+
+    fn search(name: &str, n_u32: usize, harness: fn()) {
+        let mut found: Option<(Vec<Vec<u8>>, String)> = None;
+        let prev = std::panic::take_hook();
+        std::panic::set_hook(Box::new(|_| {}));
+        'outer: for len in 0..=7usize {
+            for code in 0..3usize.pow(len as u32) {
+                let mut vals: Vec<Vec<u8>> = (0..n_u32).map(|i| vec![7 + i as u8, 0, 0, 0]).collect();
+                let mut c = code;
+                for _ in 0..len {
+                    vals.push(vec![(c % 3) as u8]);
+                    c /= 3;
+                }
+                reset();
+                let v2 = vals.clone();
+                let r = std::panic::catch_unwind(move || kani::concrete_playback_run(v2, harness));
+                if let Err(e) = r {
+                    let msg = e.downcast_ref::<String>().cloned().or_else(|| e.downcast_ref::<&str>().map(|s| s.to_string())).unwrap_or_default();
+                    // not enough / too many recorded values: this schedule does not fit the path
+                    if !msg.contains("det vals") && !msg.contains("concrete values left over") {
+                        found = Some((vals, msg));
+                        break 'outer;
+                    }
+                }
+            }
+        }
+        std::panic::set_hook(prev);
+        if let Some((vals, msg)) = found {
+            panic!("native replay of {name}: the schedule {vals:?} (serials, then answers 0 Pending / 1 error / 2 Ready) violates: {msg}");
+        }
+    }
+
+    #[test]
+    fn native_search__q_c14_buffered_flush_1_msg_2_polls() {
+        search("q_c14_buffered_flush_1_msg_2_polls", 1, super::q_c14_buffered_flush_1_msg_2_polls);
+    }
+    #[test]
+    fn native_search__q_c14_buffered_late_send_while_not_ready() {
+        search("q_c14_buffered_late_send_while_not_ready", 2, super::q_c14_buffered_late_send_while_not_ready);
+    }
+    #[test]
+    fn native_search__q_c14_buffered_late_send_while_inner_flush_pending() {
+        search("q_c14_buffered_late_send_while_inner_flush_pending", 2, super::q_c14_buffered_late_send_while_inner_flush_pending);
+    }
+    #[test]
+    fn native_search__q_c14_buffered_flush_empty_queue() {
+        search("q_c14_buffered_flush_empty_queue", 0, super::q_c14_buffered_flush_empty_queue);
+    }
+    #[cfg(not(verif_quick))]
+    #[test]
+    fn native_search__q_c14_buffered_flush_2_msgs_3_polls() {
+        search("q_c14_buffered_flush_2_msgs_3_polls", 2, super::q_c14_buffered_flush_2_msgs_3_polls);
+    }
+    #[cfg(not(verif_quick))]
+    #[test]
+    fn native_search__t_c14_buffered_flush_3_msgs_4_polls() {
+        search("t_c14_buffered_flush_3_msgs_4_polls", 3, super::t_c14_buffered_flush_3_msgs_4_polls);
+    }
+}
+
 #[cfg(verif_replay)]
 include!("/verif/.cache/replay/verif__transport.rs");
